@@ -68,9 +68,9 @@ def hashable_elems(rng, ids, n, depth, kind=None):
     return out
 
 
-def value(rng, ids, depth, width=4):
+def value(rng, ids, depth, width=4, top=False):
     """a value tree of nesting depth <= depth"""
-    if depth <= 1 or rng.random() < 0.25:
+    if depth <= 1 or rng.random() < (0.08 if top else 0.25):
         if rng.random() < 0.08:
             return nd(rng, ids)
         return atom(rng)
@@ -158,7 +158,7 @@ def hashable(t):
 
 
 # ------------------------------------------------------------------ one-step mutations
-MUTATIONS = ["copy", "copy", "retag", "regroup", "scalar_type", "scalar_value", "permute", "array",
+MUTATIONS = ["copy", "retag", "regroup", "scalar_type", "scalar_value", "permute", "array",
              "drop", "attr_name", "cls_name"]
 
 
@@ -194,8 +194,7 @@ def _inside_hashable_ctx(root, target):
 def mutate(rng, t, ids):
     """(name, t2): t2 is a fresh-id copy of t changed in one aspect ('copy': unchanged)."""
     t2 = fresh(t, ids)
-    for _ in range(8):
-        m = rng.choice(MUTATIONS)
+    for m in rng.sample(MUTATIONS, len(MUTATIONS)):
         ns = nodes(t2)
         if m == "copy":
             return m, t2
